@@ -3,7 +3,7 @@
 # usage: try_seed.sh <seed name> [<property>] [tier]
 name=$1; prop=${2:-$(python3 -c "import json;print(json.load(open('/verif/seeded/$name/meta.json'))['property'])")}; tier=${3:-quick}
 scr=$(mktemp -d /tmp/pyvc_seed.XXXXXX)
-cp -r /repo/pdb2pqr $scr/ && (cd $scr && patch -s -p1 < /verif/seeded/$name/patch.diff) || { echo "patch failed"; rm -rf $scr; exit 3; }
+cp -r /repo/pdb2pqr $scr/ && ln -s /repo/tests $scr/tests && (cd $scr && patch -s -p1 < /verif/seeded/$name/patch.diff) || { echo "patch failed"; rm -rf $scr; exit 3; }
 cd /verif && PYVC_REPO=$scr python3-vt checks/check.py $prop --tier $tier; rc=$?
 rm -rf $scr
 git -C /verif checkout -q -- evidence 2>/dev/null
